@@ -333,7 +333,7 @@ func main() {
 		"exhaustive":                    exhaustive,
 		"cap":                           capNote,
 		"samples":                       samples,
-		"rule": "alphabet {put(k,v), delete(k)} over keys {b,dd,f,hhh} x values {nil(=empty),xyz}; " +
+		"rule": "alphabet {put(k,v), delete(k)} over keys {\"\" (the empty key),dd,f,hhh} x values {nil(=empty),xyz}; " +
 			"mutable: BFS with dedup on (contents, priority-stream index of every present key, stream position, long-lived iterator position, Len, Size), all 12 successors of every state up to the depth bound; " +
 			"immutable: DFS over ALL 12^d sequences, every version retained on the stack and re-read after every later operation (immutable_version_stacks = distinct sequences of version contents, counted exactly through canonical paths); " +
 			"each run repeated for every seed of the priority menu in its own process; oracle after every step: Len, Size (linear in a measured per-node constant), Has/Get on 9 probe keys, ForEach order and early stop, unrestricted and 4 range-limited iterators (new-iterator Next/Prev, full forward/backward passes, Seek on every probe then Next/Prev, zig-zag), iterators created before the update (mutable: ForceReseek then continue/reposition; immutable: untouched)",
